@@ -99,6 +99,14 @@ CHECKS = {
              "re-export are compared too.",
         note=NOTE, technique="exhaustive enumeration of (program x probe scope) on the real macro; positive and negative compile probes vs visibility-lattice model",
         ref="DESIGN.md §3 C13"),
+    "C14": dict(
+        text="Bottom-level input mode {fn, mod, entraited trait, trait + static impl block} x sync/async x call-chain depth 1..3 (1..5 thorough) x arity "
+             "0..2 x {elided, named lifetime + borrowed argument}: level i of the chain allocates exactly i boxes, the client counts heap allocations "
+             "(counting global allocator, allocation-free executor) around the direct call and around the call through the generated trait; both must "
+             "equal d(d+1)/2 and give the same result; the generated part of every recorded expansion must not mention dyn / Box / Pin / async_trait.",
+        note=NOTE + " Debug build: Box::new allocates exactly once.",
+        technique="exhaustive enumeration of statically delegating call chains on the real macro; allocation counter + token scan vs arithmetic model",
+        ref="DESIGN.md §3 C14"),
     "C15": dict(
         text="(i) every attribute-argument token word up to length 3 (quick) / 4 (thorough) over a 23-token alphabet (option names, values, "
              "punctuation, keywords, literals, a parenthesised group) on fn, mod, trait and impl items (~50k invocations in quick); (ii) 39 documented-misuse "
